@@ -1,10 +1,12 @@
 (* C06 — Decryption returns plaintext only for authentic ciphertexts (first layer: error handling).
-   The acceptance-set characterisation lives in proofs/CryptoAccept.v once proved; until then the
-   statement "only images of encryption are accepted" is exercised exhaustively by the harness
-   (every single-bit flip, truncation, extension, usage and key) and labelled partial in the evidence. *)
+   The acceptance set is characterised in proofs/CryptoRoundTrip.v: plaintext is returned only when the
+   trailing MAC equals the RFC integrity hash of what was decrypted; that no other byte string meets this
+   is the HMAC's cryptographic strength (outside any proof) and is exercised exhaustively by the harness
+   (every single-bit flip, truncation, extension, usage and key). *)
 From Gokrb5.lib Require Import Bytes JV.
 From Gokrb5.model Require Import Crypto.
-From Gokrb5.proofs Require Import CryptoBasic.
+From Gokrb5.prim Require CBC RC4 HMAC.
+From Gokrb5.proofs Require Import CryptoBasic CryptoRoundTrip.
 
 Theorem C06_decrypt_short_is_error : forall et key usage ct,
   (length ct < conf_len et + mac_len et)%nat -> exists e, decrypt et key usage ct = Err e.
@@ -14,3 +16,25 @@ Print Assumptions C06_decrypt_short_is_error.
 Theorem C06_decrypt_never_panics : forall et key usage ct, is_panic (decrypt et key usage ct) = false.
 Proof. exact decrypt_never_panics. Qed.
 Print Assumptions C06_decrypt_never_panics.
+
+Theorem C06_decrypt_accepts_only_valid_mac : forall et key usage ct m,
+  decrypt et key usage ct = Ok m ->
+  let n := (length ct - mac_len et)%nat in
+  match et_family et with
+  | Some FAesSha1 => exists ke pt, derive_key et key (usage_const usage 170) = Ok ke /\
+      cts_decrypt (aes_ecb_dec ke) (firstn n ct) = Ok pt /\
+      integrity_hash et key usage pt = Ok (skipn n ct) /\ m = skipn 16 pt
+  | Some FAesSha2 => exists ke pt, derive_key et key (usage_const usage 170) = Ok ke /\
+      cts_decrypt (aes_ecb_dec ke) (firstn n ct) = Ok pt /\
+      integrity_hash et key usage (zeros 16 ++ firstn n ct) = Ok (skipn n ct) /\ m = skipn 16 pt
+  | Some FDes3 => exists ke, derive_key et key (usage_const usage 170) = Ok ke /\
+      let pt := CBC.cbc_decrypt (des3_ecb_dec ke) 8 (zeros 8) (firstn n ct) in
+      integrity_hash et key usage pt = Ok (skipn n ct) /\ m = skipn 8 pt
+  | Some FRc4 =>
+      let k2 := HMAC.hmac_md5 key (rc4_msg_type usage) in
+      let pt := RC4.rc4 (HMAC.hmac_md5 k2 (firstn 16 ct)) (skipn 16 ct) in
+      HMAC.hmac_md5 k2 pt = firstn 16 ct /\ m = skipn 8 pt
+  | None => False
+  end.
+Proof. exact decrypt_accepts_only_valid_mac. Qed.
+Print Assumptions C06_decrypt_accepts_only_valid_mac.
